@@ -34,7 +34,8 @@ git -C /repo worktree remove --force "$wt" >/dev/null 2>&1; rm -rf "$wt"
 cp "$src/patch.diff" "$out/patch.diff"; cp "$demo" "$out/"; cp "$src/meta.json" "$out/meta.agent.json" 2>/dev/null
 # run the check against the real repo with the patch applied
 git -C /repo apply "$src/patch.diff" || { res "patch does not apply to /repo"; exit 3; }
-./check "$prop" quick > "$out/check_output.txt" 2>&1; rc=$?
+# (evidence of this run goes to work/, never to /verif/evidence: that directory only holds runs of the unchanged tree)
+VERIF_EVIDENCE_DIR=/verif/work/seed_evidence ./check "$prop" quick > "$out/check_output.txt" 2>&1; rc=$?
 git -C /repo apply -R "$src/patch.diff" || res "WARNING: could not reverse the patch in /repo"
 res "check $prop quick with change: exit $rc, $(grep -c '^VIOLATION' "$out/check_output.txt") VIOLATION lines"
 grep '^VIOLATION\|^  obligation' "$out/check_output.txt" | head -12 >> "$log"
